@@ -17,6 +17,8 @@ import PoetryVerif.Proofs.ParserTotalVC2
 import PoetryVerif.Proofs.ParserTotalReq
 import PoetryVerif.Proofs.ParserTotalVC3
 import PoetryVerif.Proofs.ParserTotalSimp
+import PoetryVerif.Proofs.ParserTotalSimp2
+import PoetryVerif.Proofs.ParserTotalConv
 
 /-! # Part I — versions, string constraints, markers -/
 /-!
@@ -1273,5 +1275,380 @@ theorem dep_parse_top_err_classified (s : String) (e : PyErr) (h : createFromPep
 
 example : parseMarkerTop "" = .ok .any := rfl
 example : Req.parseTop "foo @" = .error .value := rfl
+
+end Poetry.C19
+
+/-! # Part X — the simplifier residue discharged: leaf invariant through the whole block -/
+/-!
+C19, Part X — the residue of Part VII discharged: the LEAF INVARIANT of the marker simplifier.
+Property theorems only (helper lemmas: Proofs/ParserTotalSimp2.lean; the version-constraint package
+`VCOpsTotal GoodVC` is Proofs/ParserTotalVC4.lean).  Fragment to be appended to Props/C19.lean (the `import`
+of Props/C19 below only serves the stand-alone build).
+
+`LeafOK P l`: a marker named `python_version` / `python_full_version` is a `SingleMarker` holding a version
+constraint, and every version constraint held by a leaf lies in `P` (here `P = GoodVC`, the class on which
+`intersect`, `union`, `is_simple()`, `str()` are total and which contains every parse result).
+* every leaf `_compact_markers` builds satisfies it (`compact_sub_markers_invariant`);
+* all sixteen functions of the simplifier preserve it (`simplifier_invariant`);
+* on such operands `_merge_single_markers` raises neither its `assert isinstance(…, SingleMarker)` nor any error
+  of the version-constraint algebra, so both parts of `simplifier_residue` are gone.
+What is left in the lists below and why: `.fuel` (model budget), `.unmodelled` (model coverage:
+`platform_release` values), `.recursion` (before the entry-point guard), and `.syntax`, which is the
+grammar's error on the INPUT or — not separated here — lark's error on a marker text the python-version merge
+re-parses after printing it (`parseItemMarker`); excluding the latter needs a lexability invariant on leaf
+values (`MarkerPrintChars.print_parse_chars`, `MarkerProjReparse.reparse_rewrite`), not attempted.
+-/
+set_option linter.unusedSimpArgs false
+set_option linter.unusedVariables false
+
+namespace Poetry.C19
+open Poetry Marker ParserTotal
+
+/-! # Part X — the leaf invariant of the simplifier; the residue discharged -/
+
+/-- the invariant, spelled out for one leaf -/
+theorem leaf_invariant_iff (l : Leaf) :
+    LeafOK GoodVC l ↔
+      ((Gen.pythonVersionMarkers.contains l.name = true → ∃ s c, l = .single s ∧ s.c = .ver c) ∧
+       (∀ c, l.c = .ver c → GoodVC c)) := Iff.rfl
+
+/-- **X1. What `_compact_markers` builds satisfies the invariant** (every syntax tree). -/
+theorem compact_sub_markers_invariant (syn : Syn) (subs : List M) (h : compactSubMarkers syn = .ok subs) :
+    ∀ m ∈ subs, M.Good (LeafOK GoodVC) m :=
+  compactSubMarkers_good vc_err_documented vcOpsTotal_good syn subs h
+
+/-- a `SingleMarker` built from a name and a constraint string satisfies it -/
+theorem mk_single_invariant (name cstr : String) (sw : Bool) (s : Single) (h : mkSingle name cstr sw = .ok s) :
+    LeafOK GoodVC (.single s) := by
+  have := (mkSingle_res vc_err_documented vcOpsTotal_good name cstr sw).of_ok h
+  simpa using this
+
+/-- **X2. The whole mutual block preserves the invariant and, on invariant operands, fails only with fuel,
+`RecursionError`, lark's error, `ValueError` or `.unmodelled`** — every fuel, every recursion stack, all of
+`intersect`, `union`, `intersection`, `union`, `cnf`, `dnf`, `MultiMarker.of`, `MarkerUnion.of` and their
+loops, `intersect_simplify`, `union_simplify` (`InvAt`: one `Res` statement per function). -/
+theorem simplifier_invariant (n : Nat) : InvAt (LeafOK GoodVC) MErr n :=
+  simplifier_invAt vc_err_documented vcOpsTotal_good n
+
+/-- **X2 (the leaf merge).** On two leaves satisfying the invariant `_merge_single_markers` returns a marker
+satisfying it, or fails with fuel / lark's error / `ValueError` / `.unmodelled`: no `AssertionError`, no error
+of the version-constraint algebra or printer, no `AttributeError`.  (`.recursion` is listed only because the
+error class is shared with the block; the merge has no `detect_recursion`.) -/
+theorem merge_invariant (l1 l2 : Leaf) (isMulti : Bool) (h1 : LeafOK GoodVC l1) (h2 : LeafOK GoodVC l2) :
+    (∀ r, mergeLeaves l1 l2 isMulti = .ok (some r) → M.Good (LeafOK GoodVC) r) ∧
+    (∀ e, mergeLeaves l1 l2 isMulti = .error e →
+      e = .fuel ∨ e = .recursion ∨ e = .syntax ∨ e = .value ∨ e = .unmodelled) := by
+  have R := mergeLeaves_res vc_err_documented vcOpsTotal_good l1 l2 isMulti h1 h2
+  exact ⟨fun r h => R.of_ok h r rfl, fun e h => FinalErr.ofBlock (R.of_err h)⟩
+
+/-- **X3. `union(*markers)` on invariant operands — no residue.** -/
+theorem simplifier_err_classified_final (fuel : Nat) (stk : Stack) (ms : List M)
+    (hg : ∀ m ∈ ms, M.Good (LeafOK GoodVC) m) (e : PyErr) (h : unionF fuel stk ms = .error e) :
+    e = .fuel ∨ e = .recursion ∨ e = .syntax ∨ e = .value ∨ e = .unmodelled :=
+  (unionF_final vc_err_documented vcOpsTotal_good fuel stk ms hg).1 e h
+
+theorem simplifier_result_invariant (fuel : Nat) (stk : Stack) (ms : List M)
+    (hg : ∀ m ∈ ms, M.Good (LeafOK GoodVC) m) (r : M) (h : unionF fuel stk ms = .ok r) :
+    M.Good (LeafOK GoodVC) r :=
+  (unionF_final vc_err_documented vcOpsTotal_good fuel stk ms hg).2 r h
+
+/-- the hypothesis is met by what the grammar and `_compact_markers` produce: -/
+example : ∃ subs, compactSubMarkers (.more (.item "python_version" ">=" "3.8" false) false
+      (.one (.item "python_full_version" "<" "3.9.1" false))) = .ok subs ∧
+    ∀ m ∈ subs, M.Good (LeafOK GoodVC) m := by
+  have h : ∃ subs, compactSubMarkers (.more (.item "python_version" ">=" "3.8" false) false
+      (.one (.item "python_full_version" "<" "3.9.1" false))) = .ok subs := ⟨_, rfl⟩
+  obtain ⟨subs, hs⟩ := h
+  exact ⟨subs, hs, compact_sub_markers_invariant _ _ hs⟩
+
+/-! ## the entry points -/
+
+/-- **`parse_marker` (before the `RecursionError` guard), every string — no residue**; a returned marker
+satisfies the invariant. -/
+theorem parse_marker_err_classified_final (s : String) (e : PyErr) (h : parseMarker s = .error e) :
+    e = .syntax ∨ e = .value ∨ e = .unmodelled ∨ e = .fuel ∨ e = .recursion := by
+  rcases (parseMarker_final vc_err_documented vcOpsTotal_good s).1 e h with h | h | h | h | h
+  · exact .inr (.inr (.inr (.inl h)))
+  · exact .inr (.inr (.inr (.inr h)))
+  · exact .inl h
+  · exact .inr (.inl h)
+  · exact .inr (.inr (.inl h))
+
+theorem parse_marker_result_invariant (s : String) (m : M) (h : parseMarker s = .ok m) :
+    M.Good (LeafOK GoodVC) m := (parseMarker_final vc_err_documented vcOpsTotal_good s).2 m h
+
+/-- the full statement for the public function: the documented errors only.  What separates the theorem
+below from it: `.unmodelled` (model coverage), `.fuel` (model budget). -/
+def parse_marker_top_err_documented_full_statement : Prop :=
+  ∀ s e, parseMarkerTop s = .error e → e = .syntax ∨ e = .value
+
+/-- **`parse_marker(text)`, public function, every string**: lark's error, `InvalidMarkerError`/`ValueError`,
+or the model's own `.unmodelled` / `.fuel`.  No residue. -/
+theorem parse_marker_top_err_documented (s : String) (e : PyErr) (h : parseMarkerTop s = .error e) :
+    e = .syntax ∨ e = .value ∨ e = .unmodelled ∨ e = .fuel := by
+  rcases parseMarkerTop_err s e h with ⟨hp, hne⟩ | ⟨_, hv⟩
+  · rcases parse_marker_err_classified_final s e hp with h | h | h | h | h
+    · exact .inl h
+    · exact .inr (.inl h)
+    · exact .inr (.inr (.inl h))
+    · exact .inr (.inr (.inr h))
+    · exact absurd h hne
+  · exact .inr (.inl hv)
+
+/-- `Requirement(text)` before the guard -/
+theorem req_parse_err_classified_final (s : String) (e : PyErr) (h : Req.parse s = .error e) :
+    e = .value ∨ e = .unmodelled ∨ e = .fuel ∨ e = .recursion ∨ e = .syntax := by
+  rcases req_parse_err_decomposed s e h with h | h | ⟨raw, _, h⟩ | ⟨raw, syn, _, _, h⟩
+  · exact .inl h
+  · exact .inr (.inl h)
+  · exact .inl (vc_parse_err_documented _ false e h)
+  · rcases (compactTop_final vc_err_documented vcOpsTotal_good syn).1 e h with h | h | h | h | h
+    · exact .inr (.inr (.inl h))
+    · exact .inr (.inr (.inr (.inl h)))
+    · exact .inr (.inr (.inr (.inr h)))
+    · exact .inl h
+    · exact .inr (.inl h)
+
+def req_parse_top_err_documented_full_statement : Prop :=
+  ∀ s e, Req.parseTop s = .error e → e = .value
+
+/-- **`Requirement(text)`, public constructor, every string**: `InvalidRequirementError`/`ValueError`, the
+model's `.unmodelled` / `.fuel`, or lark's error on a marker text re-parsed by the python-version merge (the
+requirement grammar's own errors are `.value`).  No residue. -/
+theorem req_parse_top_err_documented (s : String) (e : PyErr) (h : Req.parseTop s = .error e) :
+    e = .value ∨ e = .unmodelled ∨ e = .fuel ∨ e = .syntax := by
+  rcases Req.guardRecursion_err _ e h with ⟨hp, hne⟩ | ⟨_, hv⟩
+  · rcases req_parse_err_classified_final s e hp with h | h | h | h | h
+    · exact .inl h
+    · exact .inr (.inl h)
+    · exact .inr (.inr (.inl h))
+    · exact absurd h hne
+    · exact .inr (.inr (.inr h))
+  · exact .inl hv
+
+end Poetry.C19
+
+/-! # Part XI — `convert_markers` and the dependency parser -/
+/-!
+C19, Part XI — `convert_markers` (the `Dependency.marker` setter) and, with it, the final classification of
+`Dependency.create_from_pep_508`.  Property theorems only (helper lemmas: Proofs/ParserTotalConv.lean).
+Fragment to be appended to Props/C19.lean (the `import` of Props/C19 below only serves the stand-alone build).
+
+`convert_markers(marker)` computes `dnf(marker)` and then walks the conjunctions, asserting that every member of
+a conjunction is a single-marker-like.  `dnf` returns a disjunctive normal form for EVERY marker
+(`Marker.dnf_isDnf`, C13), so that `assert` never fires: the errors of `convert_markers` are exactly the errors of
+`dnf`, which Part VII classifies.  No shape hypothesis on the marker is needed.
+-/
+set_option linter.unusedSimpArgs false
+set_option linter.unusedVariables false
+
+namespace Poetry.C19
+open Poetry Version VParser Marker Req Dep ParserTotal
+
+/-! # Part XI — `convert_markers` and `create_from_pep_508`, final -/
+
+/-- **the `assert` of `convert_markers` is dead**: on every conjunction of the DNF of every marker (whenever
+`dnf` returns), `conjPairs` returns -/
+theorem convert_markers_assert_dead (key : String) (m d : M) (h : dnf defaultFuel [] m = .ok d) :
+    ∀ c ∈ membersIfUnion d, ∃ ps, conjPairs key c = .ok ps :=
+  fun c hc => conjPairs_ok key c (dnf_members_cubes (dnf_isDnf h) c hc)
+
+/-- **an error of `convert_markers(marker)[key]` is an error of `dnf(marker)`** — every marker, every key -/
+theorem convert_markers_err_is_dnf_err (key : String) (m : M) (e : PyErr)
+    (h : convertMarkersFor key m = .error e) : dnf defaultFuel [] m = .error e :=
+  convertMarkersFor_err key m e h
+
+/-- **`convert_markers` classified** (every marker — no shape hypothesis): the model's fuel, the
+`RecursionError` of `detect_recursion`, lark's error / `ValueError` / `unmodelled` from re-building a leaf in
+`_merge_single_markers`, or the residue of Part VII.  No `AssertionError` of its own. -/
+theorem convert_markers_err_classified (key : String) (m : M) (e : PyErr)
+    (h : convertMarkersFor key m = .error e) :
+    e = .fuel ∨ e = .recursion ∨ e = .syntax ∨ e = .value ∨ e = .unmodelled ∨ simplifier_residue e :=
+  (simplifier_err_classified_all vc_err_documented defaultFuel [] e).2.2.2.2.1 m
+    (convertMarkersFor_err key m e h)
+
+/-- in general the `assert` is live: a conjunction with a member that is not a single-marker-like -/
+example : conjPairs "extra" (.multi [.any]) = .error .assertion := rfl
+
+example : convertMarkersFor "sys_platform" (.leaf (.single Ex.sA)) = .ok (some [[("==", "a")]]) := by
+  have hd : dnf defaultFuel [] (.leaf (.single Ex.sA)) = .ok (.leaf (.single Ex.sA)) := by
+    rw [show defaultFuel = 5999 + 1 from rfl, dnf.eq_def]
+  unfold convertMarkersFor
+  simp only [hd, bind, Except.bind, membersIfUnion, List.mapM_cons, List.mapM_nil, conjPairs, pure, Except.pure]
+  decide
+example : convertMarkersFor "extra" .any = .ok none := by
+  have hd : dnf defaultFuel [] .any = .ok .any := by
+    rw [show defaultFuel = 5999 + 1 from rfl, dnf.eq_def]
+  simp [convertMarkersFor, hd, bind, Except.bind, pure, Except.pure, membersIfUnion, conjPairs]
+
+/-- the `hconv` hypothesis of Part V (`dep_parse_err_classified_partial`), discharged -/
+theorem convert_markers_hconv :
+    ∀ key m e, convertMarkersFor key m = .error e →
+      e = .fuel ∨ e = .recursion ∨ e = .syntax ∨ e = .value ∨ e = .unmodelled ∨ simplifier_residue e :=
+  convert_markers_err_classified
+
+/-- **the `marker` setter classified**: `dep.marker = m` for every dependency and marker -/
+theorem dep_set_marker_err_classified (d : Dep) (m : M) (e : PyErr) (h : d.setMarker m = .error e) :
+    e = .value ∨ e = .fuel ∨ e = .recursion ∨ e = .syntax ∨ e = .unmodelled ∨ simplifier_residue e := by
+  rcases setMarker_err d m e h with h | ⟨key, h⟩ | ⟨t, h⟩
+  · exact .inl h
+  · rcases convert_markers_err_classified key m e h with h | h | h | h | h | h
+    · exact .inr (.inl h)
+    · exact .inr (.inr (.inl h))
+    · exact .inr (.inr (.inr (.inl h)))
+    · exact .inl h
+    · exact .inr (.inr (.inr (.inr (.inl h))))
+    · exact .inr (.inr (.inr (.inr (.inr h))))
+  · exact .inl (vc_parse_err_documented t false e h)
+
+/-- **`create_from_pep_508` after `parse_requirement`, classified**: for a requirement the parser returned -/
+theorem dep_from_parsed_req_err_classified (text : List Char) (req : Requirement) (e : PyErr)
+    (hreq : Req.parseL text = .ok req) (h : fromReq req = .error e) :
+    e = .value ∨ e = .unmodelled ∨ e = .fuel ∨ e = .recursion ∨ e = .syntax ∨ simplifier_residue e := by
+  rcases fromReq_err req e h with h | h | ⟨_, t, h⟩ | ⟨_, h⟩ | ⟨d, m, _, h⟩
+  · exact .inl h
+  · exact .inr (.inl h)
+  · exact .inl (vc_parse_err_documented t false e h)
+  · exfalso
+    have hc : VParser.parseConstraint req.constraintText = .ok req.constraint := by
+      unfold parseL at hreq
+      split at hreq
+      · cases hreq
+      · exact (ofRaw_ok _ _ hreq).1
+    obtain ⟨txt, ht⟩ := vc_parsed_printable req.constraintText false req.constraint hc
+    rw [ht] at h; cases h
+  · rcases dep_set_marker_err_classified d m e h with h | h | h | h | h | h
+    · exact .inl h
+    · exact .inr (.inr (.inl h))
+    · exact .inr (.inr (.inr (.inl h)))
+    · exact .inr (.inr (.inr (.inr (.inl h))))
+    · exact .inr (.inl h)
+    · exact .inr (.inr (.inr (.inr (.inr h))))
+
+/-- **`Dependency.create_from_pep_508(text)`, public function, for every string — final.**  `ValueError`,
+outside the model, the model's fuel, lark's error on a re-parsed merged marker, the residue of Part VII, or a
+`RecursionError` — which can only come from the un-guarded tail (`convert_markers` in the `marker` setter: the
+`detect_recursion` error of `dnf`), not from the requirement parser (guarded since 9ad3a46). -/
+theorem dep_parse_err_classified_final (s : String) (e : PyErr) (h : createFromPep508Top s = .error e) :
+    e = .value ∨ e = .unmodelled ∨ e = .fuel ∨ e = .recursion ∨ e = .syntax ∨ simplifier_residue e := by
+  rcases dep_parse_top_err_classified s e h with h | h | h | h | h | ⟨req, hreq, h⟩
+  · exact .inl h
+  · exact .inr (.inl h)
+  · exact .inr (.inr (.inl h))
+  · exact .inr (.inr (.inr (.inr (.inl h))))
+  · exact .inr (.inr (.inr (.inr (.inr h))))
+  · exact dep_from_parsed_req_err_classified _ req e hreq h
+
+/-- the un-guarded model entry point (`createFromPep508`), same classes -/
+theorem dep_parse_err_classified_all (s : String) (e : PyErr) (h : createFromPep508 s = .error e) :
+    e = .value ∨ e = .unmodelled ∨ e = .fuel ∨ e = .recursion ∨ e = .syntax ∨ simplifier_residue e := by
+  rcases dep_parse_err_classified_simplifier s e h with h | h | h | h | h | h | ⟨key, m, h⟩
+  · exact .inl h
+  · exact .inr (.inl h)
+  · exact .inr (.inr (.inl h))
+  · exact .inr (.inr (.inr (.inl h)))
+  · exact .inr (.inr (.inr (.inr (.inl h))))
+  · exact .inr (.inr (.inr (.inr (.inr h))))
+  · rcases convert_markers_err_classified key m e h with h | h | h | h | h | h
+    · exact .inr (.inr (.inl h))
+    · exact .inr (.inr (.inr (.inl h)))
+    · exact .inr (.inr (.inr (.inr (.inl h))))
+    · exact .inl h
+    · exact .inr (.inl h)
+    · exact .inr (.inr (.inr (.inr (.inr h))))
+
+/-- the full statement for dependencies, up to the named residue: what is still missing for
+`dep_parse_err_classified_full_statement` (Part V) is that fuel / `RecursionError` / lark's error / the residue
+cannot occur -/
+def dep_parse_err_final_full_statement : Prop :=
+  ∀ s e, createFromPep508Top s = .error e → e = .value ∨ e = .unmodelled
+
+end Poetry.C19
+
+/-! # Part XII — the dependency parser without residue -/
+
+namespace Poetry.C19
+open Poetry Version VParser Marker Req Dep ParserTotal
+
+/-- the marker a successfully parsed requirement carries is a result of `compactTop` on some syntax tree -/
+theorem parsed_req_marker (cs : List Char) (req : Requirement) (m : M)
+    (h : Req.parseL cs = .ok req) (hm : req.marker = some m) : ∃ syn, Req.compactTop syn = .ok m := by
+  unfold Req.parseL at h
+  split at h
+  · cases h
+  · rename_i raw _
+    rw [ofRaw_eq] at h
+    obtain ⟨_, _, h⟩ := bind_ok _ _ _ h
+    unfold ofRawRest at h
+    obtain ⟨c, _, h⟩ := bind_ok _ _ _ h
+    obtain ⟨mo, hmo, h⟩ := bind_ok _ _ _ h
+    simp only [pure, Except.pure, Except.ok.injEq] at h
+    subst h
+    simp only at hm
+    subst hm
+    cases hrm : raw.marker with
+    | none => simp [hrm, pure, Except.pure] at hmo
+    | some syn =>
+      simp only [hrm] at hmo
+      cases hc : Req.compactTop syn with
+      | error e => simp [hc, Except.map] at hmo
+      | ok r => simp [hc, Except.map] at hmo; subst hmo; exact ⟨syn, hc⟩
+
+/-- **`fromReq` on a parsed requirement**: the marker satisfies the leaf invariant (Part X), so `convert_markers` → `dnf`
+fails only with the simplifier's own classes -/
+theorem dep_from_parsed_req_err_documented (text : List Char) (req : Requirement) (e : PyErr)
+    (hreq : Req.parseL text = .ok req) (h : fromReq req = .error e) :
+    e = .value ∨ e = .unmodelled ∨ e = .fuel ∨ e = .recursion ∨ e = .syntax := by
+  rcases fromReq_err req e h with h | h | ⟨_, t, h⟩ | ⟨_, h⟩ | ⟨d, m, hm, h⟩
+  · exact .inl h
+  · exact .inr (.inl h)
+  · exact .inl (vc_parse_err_documented t false e h)
+  · rcases dep_from_parsed_req_err_classified text req e hreq (by assumption) with h' | h' | h' | h' | h' | h'
+    · exact .inl h'
+    · exact .inr (.inl h')
+    · exact .inr (.inr (.inl h'))
+    · exact .inr (.inr (.inr (.inl h')))
+    · exact .inr (.inr (.inr (.inr h')))
+    · -- the residue cannot occur here: the printing branch is dead (shown inside the cited theorem); redo it directly
+      exfalso
+      obtain ⟨hc, _⟩ : VParser.parseConstraint req.constraintText = .ok req.constraint ∧ True := by
+        refine ⟨?_, trivial⟩
+        unfold Req.parseL at hreq
+        split at hreq
+        · cases hreq
+        · exact (ofRaw_ok _ req hreq).1
+      obtain ⟨txt, ht⟩ := vc_parsed_printable _ false _ hc
+      rw [ht] at h; cases h
+  · rcases setMarker_err d m e h with h | ⟨key, h⟩ | ⟨t, h⟩
+    · exact .inl h
+    · obtain ⟨syn, hsyn⟩ := parsed_req_marker text req m hreq hm
+      have hgood := (compactTop_final vc_err_documented vcOpsTotal_good syn).2 m hsyn
+      have hd := convertMarkersFor_err key m e h
+      have hres := (simplifier_invariant defaultFuel).dnf [] m hgood
+      rw [hd] at hres
+      rcases hres with h | h | h | h | h
+      · exact .inr (.inr (.inl h))
+      · exact .inr (.inr (.inr (.inl h)))
+      · exact .inr (.inr (.inr (.inr h)))
+      · exact .inl h
+      · exact .inr (.inl h)
+    · exact .inl (vc_parse_err_documented t false e h)
+
+/-- **`Dependency.create_from_pep_508(text)`, public function, for every string — no residue**: `ValueError`; the
+model's `unmodelled` / `fuel`; lark's error on a marker text the python-version merge re-parses (`syntax`, see Part X);
+or the `RecursionError` of `detect_recursion` escaping from the un-guarded `marker` setter (`convert_markers` → `dnf`). -/
+theorem dep_parse_top_err_documented (s : String) (e : PyErr) (h : createFromPep508Top s = .error e) :
+    e = .value ∨ e = .unmodelled ∨ e = .fuel ∨ e = .recursion ∨ e = .syntax := by
+  rcases createFromPep508Top_err s e h with h | ⟨req, hreq, h⟩
+  · have h' : Req.parseTop (String.ofList (stripComment s.toList)) = .error e := by simpa [Req.parseTop] using h
+    rcases req_parse_top_err_documented _ e h' with h | h | h | h
+    · exact .inl h
+    · exact .inr (.inl h)
+    · exact .inr (.inr (.inl h))
+    · exact .inr (.inr (.inr (.inr h)))
+  · exact dep_from_parsed_req_err_documented _ req e hreq h
+
+def dep_parse_top_err_documented_full_statement : Prop :=
+  ∀ s e, createFromPep508Top s = .error e → e = .value
 
 end Poetry.C19
